@@ -36,6 +36,57 @@ def build_lz4c(d):
     return out
 
 
+def multi_file(ctx, lz4c, d):
+    """several files in one invocation (the command reuses one Writer / one Reader for all of them): files compressed with
+    different block sizes and checksums, uncompressed together, in both orders - each comes back as it was"""
+    r2 = random.Random(ctx.seed + 2020)
+    B = 65536
+    datas = [bytes(r2.randrange(256) for _ in range(B)) + (b"lorem ipsum dolor sit amet " * 12000)[:3 * B + 17],
+             (b"the quick brown fox " * 40000)[:5 * B + 1], b"short", b""]
+    flagsets = [["-size", "64K"], ["-size", "256K", "-bc"], ["-size", "1M", "-sc"], ["-size", "4M", "-bc", "-l", "3"]]
+    for order in ([0, 1, 2, 3], [3, 2, 1, 0], [1, 0, 3, 2]) if ctx.tier != "quick" else ([0, 1, 2, 3], [3, 2, 1, 0]):
+        wd = os.path.join(d, "multi-%s" % "".join(map(str, order)))
+        os.makedirs(wd)
+        names = []
+        bad = None
+        for k in order:
+            name = "file%d.dat" % k
+            open(os.path.join(wd, name), "wb").write(datas[k])
+            p = subprocess.run([lz4c, "compress"] + flagsets[k] + [name], cwd=wd, stdout=subprocess.PIPE, stderr=subprocess.PIPE, timeout=600)
+            if p.returncode != 0 or not os.path.exists(os.path.join(wd, name + ".lz4")):
+                bad = "compress of %s failed (exit %d)" % (name, p.returncode)
+            names.append(name)
+        if bad is None:
+            for n_ in names:
+                os.remove(os.path.join(wd, n_))
+            u = subprocess.run([lz4c, "uncompress"] + [n_ + ".lz4" for n_ in names], cwd=wd, stdout=subprocess.PIPE, stderr=subprocess.PIPE, timeout=600)
+            for k, n_ in zip(order, names):
+                pth = os.path.join(wd, n_)
+                if not os.path.exists(pth) or open(pth, "rb").read() != datas[k]:
+                    bad = "uncompress of %s in one invocation: %s does not come back (exit %d)" % (" ".join(x + ".lz4" for x in names), n_, u.returncode)
+                    break
+        # one compress invocation for all files (same flags), then uncompressed one by one
+        if bad is None:
+            wd2 = wd + "-c"
+            os.makedirs(wd2)
+            for k in order:
+                open(os.path.join(wd2, "f%d.dat" % k), "wb").write(datas[k])
+            c = subprocess.run([lz4c, "compress", "-size", "64K", "-bc"] + ["f%d.dat" % k for k in order], cwd=wd2, stdout=subprocess.PIPE, stderr=subprocess.PIPE, timeout=600)
+            for k in order:
+                os.remove(os.path.join(wd2, "f%d.dat" % k))
+                u = subprocess.run([lz4c, "uncompress", "f%d.dat.lz4" % k], cwd=wd2, stdout=subprocess.PIPE, stderr=subprocess.PIPE, timeout=600)
+                pth = os.path.join(wd2, "f%d.dat" % k)
+                if not os.path.exists(pth) or open(pth, "rb").read() != datas[k]:
+                    bad = "compress of several files in one invocation: f%d.dat does not come back (exit %d/%d)" % (k, c.returncode, u.returncode)
+                    break
+        ctx.evaluations += 1
+        ctx.distinct += 1
+        if bad:
+            ctx.violation("C20:several-files:%s" % ("uncompress" if "uncompress of" in bad else "compress"), bad, {"kind": "c20-multi", "order": order, "what": bad})
+            return
+    ctx.extra["several_files_invocations"] = True
+
+
 def run_one(lz4c, b, d, case):
     """execute one compress / uncompress round with the real binary; returns the trace record"""
     wd = os.path.join(d, "run-%d" % case["id"])
@@ -204,6 +255,7 @@ def run(ctx):
                       {"kind": "c20", "case": {k: v for k, v in c.items() if k != "data"}, "data_len": len(c["data"]), "observed": r2})
     ctx.trusted += ["the lz4c binary is built from a scratch copy of /repo/cmd/lz4c whose go.mod replaces the library with /repo",
                     "ref.ParseFrame (strict) on the .lz4 files"]
+    multi_file(ctx, lz4c, d)
     ctx.assumptions += ["the -c flag (concurrency) is varied but not judged separately (output must not depend on it)"]
 
 
